@@ -192,6 +192,31 @@ func runC18JSON(t *vs.Tape, cfg map[string]string) (res vs.Result) {
 		return fail(vs.Violationf("C18/json-roundtrip", "save -> load does not give back the same signatures (load error: %v)", err))
 	}
 	c.Inc("save_load_round_trips")
+	// the same, unchanged store saved to a second path, and a freshly loaded
+	// store saved elsewhere: every save that returns success must have written
+	// the destination it was given
+	{
+		copy1 := simDir + "/copy1.json"
+		if err := sc.SaveDatabase(copy1); err != nil {
+			return fail(vs.Violationf("C18/json-save-error", "SaveDatabase to a second path: %v", err))
+		}
+		if ok, err := loadMatches(copy1, m); err != nil || !ok {
+			return fail(vs.Violationf("C18/json-save-second-path", "SaveDatabase(%s) returned success but that file does not hold the database (load error: %v)", copy1, err))
+		}
+		sc2 := NewScanner()
+		if err := sc2.LoadDatabase(simFile); err != nil {
+			return fail(vs.Violationf("C18/json-roundtrip", "LoadDatabase: %v", err))
+		}
+		copy2 := simDir + "/copy2.json"
+		d.WriteFile(copy2, []byte(`{"version":"old","description":"stale","signatures":[]}`), 0o600)
+		if err := sc2.SaveDatabase(copy2); err != nil {
+			return fail(vs.Violationf("C18/json-save-error", "SaveDatabase after LoadDatabase: %v", err))
+		}
+		if ok, err := loadMatches(copy2, m); err != nil || !ok {
+			return fail(vs.Violationf("C18/json-save-second-path", "LoadDatabase(a) then SaveDatabase(b) returned success but b does not hold the database (load error: %v)", err))
+		}
+		c.Inc("second_path_saves")
+	}
 	// every truncation point of the saved file: loading must fail or give the
 	// complete database, never a silent prefix
 	if saved, err := d.ReadFile(simFile); err == nil && len(saved) < 6000 {
